@@ -22,10 +22,24 @@ def _register():
     global _registered, _acc_codes
     if _registered:
         return
-    acc = importlib.import_module("hdc.algo.accessors")
-    utl = importlib.import_module("hdc.algo.utils")
-    _acc_codes = tuple(code_objects_of(acc)) + tuple(code_objects_of(utl))
-    preemptible(*_acc_codes)
+    import sys
+
+    importlib.import_module("hdc.algo.accessors")
+    codes = []
+    # every pure-Python function of every hdc module (compiled kernels never execute their Python
+    # source, so registering them costs nothing); the proxies/wrappers are registered separately
+    for name, mod in sorted(sys.modules.items()):
+        if mod is not None and (name == "hdc" or name.startswith("hdc.")) and "vendor" not in name:
+            try:
+                codes.extend(code_objects_of(mod))
+            except Exception:  # noqa: BLE001
+                pass
+    preemptible(*codes)
+    # the lazy-compile wrapper stays pre-emptible even when accessor pre-emption is switched off
+    from .proxies import lazycompile_codes
+
+    keep = set(lazycompile_codes())
+    _acc_codes = tuple(c for c in dict.fromkeys(codes) if c not in keep and not c.co_filename.endswith("_helper.py"))
     _registered = True
 
 
